@@ -175,6 +175,29 @@ fn res(_: &mut ZooA, which: String) -> Result<(), String> {
     }
 }
 
+/// A `Result` hidden behind a type alias.
+pub type Fallible = Result<(), String>;
+
+#[then(regex = r"^alias (ok|err)$")]
+fn alias_res(_: &mut ZooA, which: String) -> Fallible {
+    rec(format!("alias_res({which})"));
+    if which == "ok" {
+        Ok(())
+    } else {
+        Err("aliased err".into())
+    }
+}
+
+#[then(regex = r"^io (ok|err)$")]
+async fn io_res(_: &mut ZooA, which: String) -> std::io::Result<()> {
+    rec(format!("io_res({which})"));
+    if which == "ok" {
+        Ok(())
+    } else {
+        Err(std::io::Error::other("io err"))
+    }
+}
+
 #[then(expr = "async result {word}")]
 async fn ares(_: &mut ZooA, s: String) -> Result<(), MyErr> {
     rec(format!("ares({s})"));
@@ -397,6 +420,16 @@ pub fn entries() -> Vec<Entry> {
             "result err" => Some(Expect::Fail(Some("res(err)".into()))),
             _ => None,
         }),
+        e(0, Then, "alias_res", |t| match t {
+            "alias ok" => Some(Expect::Call("alias_res(ok)".into())),
+            "alias err" => Some(Expect::Fail(Some("alias_res(err)".into()))),
+            _ => None,
+        }),
+        e(0, Then, "io_res", |t| match t {
+            "io ok" => Some(Expect::Call("io_res(ok)".into())),
+            "io err" => Some(Expect::Fail(Some("io_res(err)".into()))),
+            _ => None,
+        }),
         e(0, Then, "ares", |t| {
             let w = t.strip_prefix("async result ")?;
             no_ws(w).then(|| {
@@ -473,7 +506,7 @@ pub fn texts(max_tokens: usize) -> Vec<String> {
         "wait 5s then go 1", "wait 6m then go 2", "wait 7h then go 3", "wait 7d then go 3", "wait 5s then go x",
         "wait s then go 1", "wait 5s then  1",
         "far 5km away", "far 7mi away", "far 5 away", "far km away", "far 5kmi away",
-        "async 7", "async 256", "async x", "result ok", "result err", "result maybe",
+        "async 7", "async 256", "async x", "result ok", "result err", "result maybe", "alias ok", "alias err", "alias maybe", "io ok", "io err",
         "async result ok", "async result no", "async result two words",
         "parse 12", "parse 300", "parse x", "parse -1", "multi lit", "multi re", "multi expr", "multi", "multi lit ",
         "abc named group", "two words named group", "b 12", "b 70000", "b x",
@@ -650,7 +683,7 @@ pub fn run(a: &ShardArgs) -> serde_json::Value {
         "property": "C19", "tier": a.tier,
         "total_configs": txts.len() * 6, "configs_done": counters.0, "configs_skipped_budget": 0,
         "evaluations": counters.0 + reg, "distinct_nontrivial": counters.1,
-        "rule": format!("a zoo of {} attribute instances on 21 functions for 2 Worlds (sync/async, unit/Result, typed args, slice, #[step] / `step` argument, literal / regex = / expr =, custom Parameter with one and several groups, several attributes on one fn, named group) x every text of <= {} tokens over a 12-token alphabet plus positive / near-miss texts of every entry (prefix, suffix, padding, case) x 3 keywords; non-trivial = lookups that dispatch to a function", es.len(), if a.thorough {4} else {3}),
+        "rule": format!("a zoo of {} attribute instances on 24 functions for 2 Worlds (sync/async, unit/Result, typed args, slice, #[step] / `step` argument, literal / regex = / expr =, custom Parameter with one and several groups, several attributes on one fn, named group) x every text of <= {} tokens over a 12-token alphabet plus positive / near-miss texts of every entry (prefix, suffix, padding, case) x 3 keywords; non-trivial = lookups that dispatch to a function", es.len(), if a.thorough {4} else {3}),
         "exhaustive": true,
         "violations": violations, "samples": samples,
     })
